@@ -6,7 +6,7 @@ from typing import Dict, List, Optional, Set, Tuple
 
 from ..program import (AnalysisError, Class, Func, call_name, const_str,
                        dotted, kwarg, norm_key, unparse, walk_no_nested)
-from ..util import is_self_attr, subscript_const
+from ..util import expand_expr, is_self_attr, subscript_const
 
 EXPLANATION = (
     'Decided clauses: R-C06.1 for each signature class (Project, App, Model, '
@@ -450,12 +450,16 @@ def r3_storage_framing(ctx):
     g = ctx.cfg(dumps)
     jn = [n for n in g.nodes for c in n.calls()
           if dotted(c.func) == 'json.dumps']
-    tests = [n for n in g.nodes if n.kind == 'test' and
-             'sig_version' in unparse(n.ast)]
+    # the tested value is the serialised data's '__version__' entry, read
+    # directly or through single-assignment locals
+    def _texp(n):
+        return unparse(expand_expr(dumps, n.ast))
+    tests = [n for n in g.nodes if n.kind == 'test' and n.ast is not None and
+             '__version__' in _texp(n)]
     if jn and tests and all(any(g.guarded_by(j, t, 'T') for t in tests)
                             for j in jn) and \
-            any('>= 2' in unparse(t.ast) or '== 2' in unparse(t.ast) or
-                '> 1' in unparse(t.ast) for t in tests):
+            any('>= 2' in _texp(t) or '== 2' in _texp(t) or
+                '> 1' in _texp(t) for t in tests):
         ctx.ok(dumps, 'JSON framing is used exactly for signature version '
                '>= 2')
     else:
